@@ -27,7 +27,7 @@ type c19Case struct {
 	Fmt    string `json:"fmt"`              // p2, p1
 	Muts   []int  `json:"muts"`             // indices into the mutation table
 	Names  []string `json:"names,omitempty"` // mutation names (informational)
-	Where  int    `json:"where"`            // 0 index+volumes, 1 index only, 2 volumes only
+	Where  int    `json:"where"`            // 0 index+volumes, 1 index only, 2 volumes only, 3 only the second volume file
 	Data   int    `json:"data"`             // 0 data intact, 1 first file missing, 2 second file's first slice overwritten
 }
 
@@ -43,6 +43,7 @@ type a2desc struct {
 type a2ifsc struct {
 	ID   [16]byte
 	Sums []rpar2.Checksum
+	Tail []byte // extra bytes after the last checksum pair (a partial pair)
 	Drop bool
 	Dup  bool
 }
@@ -62,6 +63,8 @@ type a2spec struct {
 	Main        bool
 	DupMain     bool
 	DupCreator  bool
+	MainTail    []byte            // extra bytes appended to the main packet body (e.g. a partial id)
+	IndexRecv   bool              // put a recovery packet into the index file
 	Reseal      bool              // recompute the set id from the (mutated) main body; else keep the original id
 	LenOverride map[string]uint64 // packet kind -> header length field value
 	OrigSetID   [16]byte
@@ -74,6 +77,7 @@ func (a *a2spec) mainBody() []byte {
 	for _, id := range a.IDs {
 		b = append(b, id[:]...)
 	}
+	b = append(b, a.MainTail...)
 	return b
 }
 
@@ -136,6 +140,7 @@ func (a *a2spec) core() [][]byte {
 			binary.LittleEndian.PutUint32(x[:], c.CRC)
 			body = append(body, x[:]...)
 		}
+		body = append(body, f.Tail...)
 		p := a.frame("ifsc", rpar2.TypeIFSC, body)
 		out = append(out, p)
 		if f.Dup {
@@ -145,9 +150,17 @@ func (a *a2spec) core() [][]byte {
 	return out
 }
 
-func (a *a2spec) volume() []byte {
+func (a *a2spec) volume() []byte { return a.volumeRange(0, len(a.Recvs)) }
+
+func (a *a2spec) volumeRange(lo, hi int) []byte {
 	pk := a.core()
-	for _, rv := range a.Recvs {
+	if hi > len(a.Recvs) {
+		hi = len(a.Recvs)
+	}
+	if lo > hi {
+		lo = hi
+	}
+	for _, rv := range a.Recvs[lo:hi] {
 		body := make([]byte, 4, 4+len(rv.Data))
 		binary.LittleEndian.PutUint32(body, rv.Exp)
 		body = append(body, rv.Data...)
@@ -246,6 +259,9 @@ func init() {
 	})
 	add("main.ids.known-as-non-recovery", func(a *a2spec) { a.Count = 1 })
 	add("main.ids.none", func(a *a2spec) { a.IDs = nil })
+	add("main.ids.partial-id-appended", func(a *a2spec) { a.MainTail = []byte{1, 2, 3, 4} })
+	add("main.ids.partial-id-appended-12", func(a *a2spec) { a.MainTail = []byte{1, 2, 3, 4, 5, 6, 7, 8, 9, 10, 11, 12} })
+	add("index.contains-recovery-packet", func(a *a2spec) { a.IndexRecv = true })
 	add("main.missing", func(a *a2spec) { a.Main = false })
 	add("main.duplicated", func(a *a2spec) { a.DupMain = true })
 	add("creator.missing", func(a *a2spec) { a.Creator = false })
@@ -298,6 +314,8 @@ func init() {
 				a.IFSCs[fi].Sums = append(a.IFSCs[fi].Sums, c0)
 			}
 		})
+		add(fmt.Sprintf("ifsc[%d].partial-pair-appended", fi), func(a *a2spec) { a.IFSCs[fi].Tail = []byte{9, 9, 9, 9} })
+		add(fmt.Sprintf("ifsc[%d].partial-pair-appended-16", fi), func(a *a2spec) { a.IFSCs[fi].Tail = make([]byte, 16) })
 		add(fmt.Sprintf("ifsc[%d].missing", fi), func(a *a2spec) { a.IFSCs[fi].Drop = true })
 		add(fmt.Sprintf("ifsc[%d].duplicated", fi), func(a *a2spec) { a.IFSCs[fi].Dup = true })
 		add(fmt.Sprintf("ifsc[%d].id-wrong", fi), func(a *a2spec) { a.IFSCs[fi].ID[5] ^= 1 })
@@ -418,6 +436,8 @@ func (v *a1spec) build(number uint64, data []byte) []byte {
 	}
 	if v.TruncData > 0 && v.TruncData <= len(data) {
 		data = data[:len(data)-v.TruncData]
+	} else if v.TruncData > len(data) {
+		data = nil
 	}
 	out := make([]byte, 0x60)
 	copy(out[0:8], []byte{'P', 'A', 'R', 0, 0, 0, 0, 0})
@@ -511,6 +531,7 @@ func init() {
 		n := n
 		add(fmt.Sprintf("data.truncated-by-%d", n), func(v *a1spec) { v.TruncData = n })
 	}
+	add("data.empty", func(v *a1spec) { v.TruncData = 1 << 20 })
 	for ei := 0; ei < 3; ei++ {
 		ei := ei
 		for _, x := range []uint64{1, 55, 56, 57, 58, 59, 61, 62, 200, 1 << 31, 1<<63 - 1, 1 << 63, 1<<64 - 2, 1<<64 - 1} {
@@ -549,7 +570,7 @@ func c19Gen(g *core.Gen) {
 			return c19P1Muts[i].Name
 		}
 		for i := 0; i < n; i++ {
-			for where := 0; where < 3; where++ {
+			for where := 0; where < 4; where++ {
 				for data := 0; data < 3; data++ {
 					g.Emit(&c19Case{Fmt: f, Muts: []int{i}, Names: []string{name(i)}, Where: where, Data: data})
 				}
@@ -570,7 +591,7 @@ func c19Gen(g *core.Gen) {
 				if k%stride != 0 {
 					continue
 				}
-				g.Emit(&c19Case{Fmt: f, Muts: []int{i, j}, Names: []string{name(i), name(j)}, Where: (i + j) % 3, Data: (i + 2*j) % 3})
+				g.Emit(&c19Case{Fmt: f, Muts: []int{i, j}, Names: []string{name(i), name(j)}, Where: (i + j) % 4, Data: (i + 2*j) % 3})
 			}
 		}
 		if !g.Thorough() {
@@ -636,12 +657,25 @@ func c19RunP2(c *c19Case, r *core.Rec) {
 	switch c.Where {
 	case 1:
 		volSpec = pristine
-	case 2:
+	case 2, 3:
 		idxSpec = pristine
 	}
 	fs := envfs.New()
-	fs.Put("/d/s.par2", rpar2.Join(idxSpec.core()...))
-	fs.Put("/d/s.vol0+5.par2", volSpec.volume())
+	idxPk := idxSpec.core()
+	if idxSpec.IndexRecv && len(idxSpec.Recvs) > 0 {
+		rv := idxSpec.Recvs[0]
+		body := make([]byte, 4, 4+len(rv.Data))
+		binary.LittleEndian.PutUint32(body, rv.Exp)
+		idxPk = append(idxPk, idxSpec.frame("recv", rpar2.TypeRecv, append(body, rv.Data...)))
+	}
+	fs.Put("/d/s.par2", rpar2.Join(idxPk...))
+	// two volume files (blocks 0-1 and 2-4); where=3 mutates only the second one
+	vol1Spec := volSpec
+	if c.Where == 3 {
+		vol1Spec = pristine
+	}
+	fs.Put("/d/s.vol0+2.par2", vol1Spec.volumeRange(0, 2))
+	fs.Put("/d/s.vol2+3.par2", volSpec.volumeRange(2, 5))
 	for i, n := range names {
 		fs.Put("/d/"+n, datas[i])
 	}
@@ -697,12 +731,16 @@ func c19RunP2(c *c19Case, r *core.Rec) {
 	}
 	okBlocks := 0
 	seenExp := map[uint32]bool{}
-	for _, rv := range volSpec.Recvs {
-		if uint64(len(rv.Data)) == declSlice && !seenExp[rv.Exp] {
-			seenExp[rv.Exp] = true
-			okBlocks++
+	countBlocks := func(sp *a2spec, lo, hi int) {
+		for i, rv := range sp.Recvs {
+			if i >= lo && i < hi && uint64(len(rv.Data)) == declSlice && !seenExp[rv.Exp] {
+				seenExp[rv.Exp] = true
+				okBlocks++
+			}
 		}
 	}
+	countBlocks(vol1Spec, 0, 2)
+	countBlocks(volSpec, 2, 5)
 	bound := c19AllocBound(presentBytes, declSlice, 5)
 
 	var ms0, ms1 runtime.MemStats
@@ -777,13 +815,17 @@ func c19RunP1(c *c19Case, r *core.Rec) {
 	switch c.Where {
 	case 1:
 		volSpec = pristine
-	case 2:
+	case 2, 3:
 		idxSpec = pristine
 	}
 	fs := envfs.New()
 	fs.Put("/d/s.par", idxSpec.build(0, nil))
 	for v := 1; v <= 2; v++ {
-		fs.Put(fmt.Sprintf("/d/s.p%02d", v), volSpec.build(uint64(v), rpar1.Parity(datas, v)))
+		vs := volSpec
+		if c.Where == 3 && v == 1 {
+			vs = pristine // where=3: only the second volume is mutated (volumes then disagree with each other)
+		}
+		fs.Put(fmt.Sprintf("/d/s.p%02d", v), vs.build(uint64(v), rpar1.Parity(datas, v)))
 	}
 	for i, n := range names {
 		fs.Put("/d/"+n, datas[i])
@@ -928,7 +970,7 @@ func init() {
 		ID:    "C19",
 		Level: "model_checking",
 		Rule: "bounded-exhaustive semantic mutations through the reference writers (every mutated packet / volume is re-checksummed): PAR2: main packet slice size and count at boundary values (with re-sealed and with stale set id), duplicate / unsorted / missing / unknown ids, removal and duplication of each packet type, every file description length at boundary values (id recomputed), wrong hashes and ids, checksum lists longer / shorter / empty / huge, recovery exponents {1,4,5,100,65534,65535,65536,2^31,2^32-1}, recovery payloads of size {0,4,8,12,64}, duplicate exponent with different data, and every packet type's length field at {0,4,60,63,64,65,68,real-4,real+4,2^31,2^63-4,2^63,2^64-4}; PAR1: every header field and every entry field at boundary values, missing / duplicated entries, truncated data, odd name bytes. " +
-			"Each mutation applied to index+volumes / index only / volumes only x data {intact, first file missing, a slice overwritten}; all single mutations and pairs (quick: every 7th pair; thorough: all pairs); real Verify and Repair. " +
+			"Each mutation applied to index+volumes / index only / volumes only / the second volume file only x data {intact, first file missing, a slice overwritten}; all single mutations and pairs (quick: every 7th pair; thorough: all pairs); real Verify and Repair. " +
 			"Oracle: no panic / crash / hang; TotalAlloc delta <= 64 x (bytes present + declared slice size x 6) + 256 MiB; usable recovery blocks <= recovery packets whose payload has the declared slice size; usable data <= declared checksum entries matching bytes actually present; every write matches the archive's own MD5 and length for that path. non-trivial = every case",
 		Assumptions: []string{"slice sizes >= 2^26 are capped in the allocation bound; 2^31-class slice sizes (seconds of legitimate proportional allocation) are not executed", "TotalAlloc is attributed per execution because workers are single-threaded"},
 		NewCase:     func() interface{} { return &c19Case{} },
